@@ -20,11 +20,16 @@ vars == <<l, st, viol>>
 Ev == Trace[l]
 IsEvent(k) == l <= Len(Trace) /\ Ev.ev = k /\ l' = l + 1
 
-Known == {"Reset", "Planned", "ApplyCall", "ApplyRet", "TxTag", "StoreSet", "Open", "Teardown", "SrcAck", "Durable",
+Known == {"Reset", "Planned", "ApplyCall", "ApplyRet", "Emit", "Proc", "TxTag", "StoreSet", "Open", "Teardown", "SrcAck", "Durable",
           "End", "Hang", "Panic", "HarnessError", "ChildTimeout"}
 
 Empty == [scen |-> "", srcs |-> {}, feats |-> {}, live |-> <<>>, acked |-> <<>>, stored |-> <<>>, provTx |-> {},
-          plans |-> <<>>,          \* pid -> [empty, live]
+          plans |-> <<>>,          \* pid -> [empty, live, epoch]
+          epoch |-> 0,             \* number of non-empty plans applied successfully so far
+          applied |-> <<>>,        \* what each of them was about (sets of configuration parts), in order
+          exp |-> <<>>,            \* processor -> configuration generation that is in force (1 if absent); "?" once unknown
+          calls |-> 0,             \* ApplyCalls so far
+          readAt |-> <<>>,         \* record -> [calls, exp] when it was read with no apply in flight
           open |-> {},             \* applies in flight: aid -> [...]
           cur |-> <<>>,            \* aid -> record of the apply in flight
           tearsDuring |-> <<>>,    \* aid -> number of source teardowns seen while it was in flight
@@ -46,13 +51,15 @@ Reset ==
 
 Planned ==
   /\ IsEvent("Planned")
-  /\ st' = [st EXCEPT !.plans = Put(@, Ev.pid, [empty |-> Ev.empty, live |-> Ev.live_eligible])]
+  /\ st' = [st EXCEPT !.plans = Put(@, Ev.pid, [empty |-> Ev.empty, live |-> Ev.live_eligible, epoch |-> st.epoch,
+                                                 gens |-> IF "gens" \in DOMAIN Ev THEN Ev.gens ELSE <<>>,
+                                                 touches |-> IF "touches" \in DOMAIN Ev THEN ToSet(Ev.touches) ELSE {"?"}])]
   /\ UNCHANGED viol
 
 ApplyCall ==
   /\ IsEvent("ApplyCall")
   /\ st' = [st EXCEPT !.cur = Put(@, Ev.aid, [pid |-> Ev.pid, allow |-> Ev.allow, running |-> Ev.reported \in {"Running", "Recovering"}]),
-                      !.tearsDuring = Put(@, Ev.aid, 0)]
+                      !.tearsDuring = Put(@, Ev.aid, 0), !.calls = @ + 1]
   /\ UNCHANGED viol
 
 InFlight == DOMAIN st.cur
@@ -63,8 +70,23 @@ ApplyRet ==
          p == st.plans[a.pid]
          code == IF "code" \in DOMAIN Ev.err THEN Ev.err.code ELSE ""
          touched == Get(st.tearsDuring, Ev.aid, 0) > 0 IN
-     /\ st' = [st EXCEPT !.cur = [k \in DOMAIN @ \ {Ev.aid} |-> @[k]]]
+     /\ st' = [st EXCEPT !.cur = [k \in DOMAIN @ \ {Ev.aid} |-> @[k]],
+                         !.epoch = IF Ev.err.nil /\ ~p.empty THEN @ + 1 ELSE @,
+                         !.applied = IF Ev.err.nil /\ ~p.empty THEN Append(@, p.touches) ELSE @,
+                         \* which processor configurations are in force from now on: the desired ones after an apply
+                         \* that left the new configuration, the previous ones after one that left the old one
+                         !.exp = IF Ev.exported = "new" THEN [k \in DOMAIN p.gens |-> p.gens[k]]
+                                 ELSE IF Ev.exported = "old" THEN @ ELSE [k \in {"?"} |-> 0]]
      /\ viol' = viol
+          \* a plan is applied only if it still matches the current state.  A desired configuration is a whole
+          \* configuration: once an INDEPENDENT change (about other parts of the configuration) has been applied
+          \* since this plan was computed, the plan no longer matches (applying it would revert that change) and
+          \* has to be refused as stale - also when the two applies ran concurrently.  (Changes about the same part
+          \* may coincide with the recomputed plan, e.g. deleting a processor another apply has just reconfigured.)
+          \cup (IF Ev.err.nil /\ ~p.empty
+                  THEN Add(\A k \in DOMAIN st.applied : k <= p.epoch \/ st.applied[k] \cap p.touches # {} \/ "?" \in p.touches,
+                           "StaleRefused", <<"a stale plan was applied", "planned at", p.epoch, "now", st.epoch>>)
+                  ELSE {})
           \cup (IF code = "provisioning.plan_stale"
                   THEN Add("concurrent-apply" \in st.feats \/ (Ev.exported = "old" /\ ~touched), "StaleRefused", <<Ev.exported, touched>>)
                   ELSE {})
@@ -76,6 +98,26 @@ ApplyRet ==
                   THEN Add(Ev.exported = "new", "AppliedIsDesired", Ev.exported) ELSE {})
           \cup (IF ~Ev.err.nil /\ "concurrent-apply" \notin st.feats
                   THEN Add(Ev.exported \in {"old", "new"}, "FailedConsistent", Ev.exported) ELSE {})
+
+(* "a refused or failed apply leaves configuration and the running pipeline unchanged" / a successful one leaves
+   the desired configuration: a record read while no apply was in flight, and processed before the next apply is
+   called, is processed by the configuration the last apply left in force. *)
+ExpGen(e, proc) == IF proc \in DOMAIN e THEN e[proc] ELSE 1
+Emit ==
+  /\ IsEvent("Emit")
+  /\ st' = IF InFlight = {} /\ "?" \notin DOMAIN st.exp
+             THEN [st EXCEPT !.readAt = Put(@, <<Ev.src, Ev.idx>>, [calls |-> st.calls, exp |-> st.exp])]
+             ELSE st
+  /\ UNCHANGED viol
+Proc ==
+  /\ IsEvent("Proc")
+  /\ UNCHANGED st
+  /\ LET key == <<Ev.src, Ev.idx>> IN
+     viol' = IF "src" \in DOMAIN Ev /\ key \in DOMAIN st.readAt /\ st.readAt[key].calls = st.calls /\ st.calls > 0
+               THEN viol \cup Add(Ev.geni = ExpGen(st.readAt[key].exp, Ev.proc), "FailedConsistent",
+                                  <<"processor runs another configuration than the last apply left", Ev.proc, Ev.geni,
+                                    ExpGen(st.readAt[key].exp, Ev.proc)>>)
+               ELSE viol
 
 TxTag ==
   /\ IsEvent("TxTag")
@@ -121,7 +163,7 @@ Panic == IsEvent("Panic") /\ viol' = viol \cup {V("NoPanic", Ev.stderr)} /\ UNCH
 HarnessError == (IsEvent("HarnessError") \/ IsEvent("ChildTimeout")) /\ st' = [st EXCEPT !.bad = TRUE] /\ UNCHANGED viol
 Other == l <= Len(Trace) /\ Ev.ev \notin Known /\ l' = l + 1 /\ UNCHANGED <<st, viol>>
 
-Next == Reset \/ Planned \/ ApplyCall \/ ApplyRet \/ TxTag \/ StoreSet \/ Open \/ Teardown \/ SrcAck \/ Durable
+Next == Reset \/ Planned \/ ApplyCall \/ ApplyRet \/ Emit \/ Proc \/ TxTag \/ StoreSet \/ Open \/ Teardown \/ SrcAck \/ Durable
         \/ End \/ Hang \/ Panic \/ HarnessError \/ Other
 Spec == Init /\ [][Next]_vars
 WellFormed == ~st.bad
